@@ -498,7 +498,7 @@ FN('write_chunk', props=['C03', 'C18', 'C19', 'C01'], ret='again',
 # BodyReader (C06 framing decision, C07 chunked, C08 length / close delimited, C12)
 # =============================================================================
 RAW('''
-use crate::chunk::{Dechunker, is_subseq, one_segment, dechunker_wf, lemma_subseq_extend_both, lemma_subseq_extend_b};
+use crate::chunk::{Dechunker, is_subseq, dechunker_wf, lemma_subseq_extend_both, lemma_subseq_extend_b, lemma_subseq_refl, lemma_subseq_concat, spec_parse, ParseOut, lemma_parse_basic};
 use crate::http::{HeaderName, HeaderValue, Method};
 use crate::error::Error;
 
@@ -535,6 +535,65 @@ pub open spec fn lookup_is<'a, F: Fn(&str) -> Option<&'a str>>(f: &F, hdr: spec_
     forall|s: &str, o: Option<&'a str>| #[trigger] f.ensures((s,), o) ==> opt_bytes(o) == hdr(str_bytes(s))
 }
 pub open spec fn reader_wf(r: BodyReader) -> bool { r is Chunked ==> dechunker_wf(r->Chunked_0) }
+
+/// `read_chunked` as a function of (decoder state, window, room, boundary stop): `parse_input` is repeated until it makes
+/// no progress, the window or the room is used up, the body ended, or (boundary stop) a chunk boundary is reached
+#[verifier::opaque]
+pub open spec fn spec_read(s: Dechunker, win: Seq<u8>, room: int, stop: bool) -> Option<ParseOut>
+    decreases win.len()
+{
+    match spec_parse(s, win, room) {
+        None => None,
+        Some(r) =>
+            if r.i <= 0 || r.i >= win.len() || r.out.len() >= room || r.state is Ended || (stop && r.state is Size) { Some(r) }
+            else { match spec_read(r.state, win.subrange(r.i, win.len() as int), room - r.out.len(), stop) {
+                None => None,
+                Some(r2) => Some(ParseOut { state: r2.state, i: r.i + r2.i, out: r.out + r2.out }),
+            } },
+    }
+}
+pub proof fn lemma_read_unfold(s: Dechunker, win: Seq<u8>, room: int, stop: bool)
+    ensures spec_read(s, win, room, stop) == (match spec_parse(s, win, room) {
+        None => None,
+        Some(r) =>
+            if r.i <= 0 || r.i >= win.len() || r.out.len() >= room || r.state is Ended || (stop && r.state is Size) { Some(r) }
+            else { match spec_read(r.state, win.subrange(r.i, win.len() as int), room - r.out.len(), stop) {
+                None => None,
+                Some(r2) => Some(ParseOut { state: r2.state, i: r.i + r2.i, out: r.out + r2.out }),
+            } },
+    })
+{
+    reveal(spec_read);
+}
+/// C12 for arbitrary bytes, derived from the interpreter
+pub proof fn lemma_read_basic(s: Dechunker, win: Seq<u8>, room: int, stop: bool)
+    requires room >= 0, dechunker_wf(s),
+    ensures spec_read(s, win, room, stop) matches Some(p) ==> 0 <= p.i <= win.len() && p.out.len() <= room && dechunker_wf(p.state)
+            && is_subseq(p.out, win.subrange(0, p.i)) && (s is Ended ==> p.i == 0 && p.out.len() == 0 && p.state is Ended),
+        s is Ended ==> spec_read(s, win, room, stop) is Some,
+    decreases win.len()
+{
+    lemma_read_unfold(s, win, room, stop);
+    lemma_parse_basic(s, win, room);
+    if s is Ended { crate::chunk::lemma_parse_unfold(s, win, room); }
+    match spec_parse(s, win, room) {
+        None => {}
+        Some(r) => {
+            if !(r.i <= 0 || r.i >= win.len() || r.out.len() >= room || r.state is Ended || (stop && r.state is Size)) {
+                let rest = win.subrange(r.i, win.len() as int);
+                lemma_read_basic(r.state, rest, room - r.out.len(), stop);
+                match spec_read(r.state, rest, room - r.out.len(), stop) {
+                    Some(r2) => {
+                        assert(rest.subrange(0, r2.i) =~= win.subrange(r.i, r.i + r2.i));
+                        lemma_subseq_concat(r.out, win.subrange(0, r.i), r2.out, rest.subrange(0, r2.i));
+                        assert(win.subrange(0, r.i) + rest.subrange(0, r2.i) =~= win.subrange(0, r.i + r2.i));
+                    }
+                    None => {}
+                }
+            }
+        }
+    }
+}
 ''')
 
 ITEM('enum BodyReader', derive_add=['Structural'])
@@ -587,7 +646,7 @@ FN('read', props=['C07', 'C08', 'C12', 'C01'], ret='r',
        ('C12.copy_in_order', 'r is Ok ==> is_subseq(final(dst)@.subrange(0, r->Ok_0.1 as int), src@.subrange(0, r->Ok_0.0 as int))'),
        ('C08.length_delimited', '*old(self) is LengthDelimited ==> Self::post_read_limit(*old(self), *final(self), src@, old(dst)@, final(dst)@, r)'),
        ('C08.close_delimited', '*old(self) is CloseDelimited ==> Self::post_read_unlimit(*old(self), *final(self), src@, old(dst)@, final(dst)@, r)'),
-       ('C07.chunked', '*old(self) is Chunked ==> Self::post_read_chunked(*old(self), *final(self), src@, final(dst)@, stop_on_chunk_boundary, r)'),
+       ('C07.chunked', '*old(self) is Chunked ==> Self::post_read_chunked(*old(self), *final(self), src@, old(dst).len() as int, final(dst)@, stop_on_chunk_boundary, r)'),
        ('aux.BodyReader.read.nobody', '*old(self) is NoBody ==> r == Ok::<(usize, usize), Error>((0usize, 0usize)) && *final(self) == *old(self)'),
    ],
    head='proof { axiom_slice_len(src); }',
@@ -617,13 +676,11 @@ RAW('''
         &&& dst1.subrange(0, n) =~= src.subrange(0, n)
         &&& dst1.subrange(n, dst1.len() as int) =~= dst0.subrange(n, dst0.len() as int)
     }
-    /// C07 (what is proved without the coding witness): a chunked read stays chunked, an ended body consumes
-    /// nothing, and with boundary stopping the data of one read is one contiguous piece of the input
-    pub open spec fn post_read_chunked(pre: Self, post: Self, src: Seq<u8>, dst1: Seq<u8>, stop: bool, r: Result<(usize, usize), Error>) -> bool {
-        r is Ok ==> {
-            &&& post is Chunked
-            &&& (pre->Chunked_0 is Ended ==> r->Ok_0.0 == 0 && r->Ok_0.1 == 0 && post->Chunked_0 is Ended)
-            &&& (stop ==> one_segment(src, dst1, r->Ok_0.0 as int, r->Ok_0.1 as int, pre->Chunked_0, post->Chunked_0))
+    /// C07: a chunked read is exactly the spec-level interpreter `spec_read` applied to (decoder state, window, room, stop)
+    pub open spec fn post_read_chunked(pre: Self, post: Self, src: Seq<u8>, dst0_len: int, dst1: Seq<u8>, stop: bool, r: Result<(usize, usize), Error>) -> bool {
+        match spec_read(pre->Chunked_0, src, dst0_len, stop) {
+            None => r is Err,
+            Some(p) => r == Ok::<(usize, usize), Error>((p.i as usize, p.out.len() as usize)) && p.i >= 0 && post == BodyReader::Chunked(p.state) && dst1.subrange(0, p.out.len() as int) == p.out,
         }
     }
 ''')
@@ -646,10 +703,11 @@ FN('read_unlimit', props=['C08', 'C12', 'C01'], ret='r',
 FN('read_chunked', props=['C07', 'C12', 'C01'], ret='r',
    requires=[('aux.read_chunked.mode', '*old(self) is Chunked && dechunker_wf(old(self)->Chunked_0)')],
    ensures=[
-       ('aux.read_chunked.frame', 'final(dst).len() == old(dst).len() && reader_wf(*final(self))'),
+       ('aux.read_chunked.frame', 'final(dst).len() == old(dst).len() && reader_wf(*final(self)) && *final(self) is Chunked'),
+       ('C07.read_chunked_is_the_interpreter', 'Self::post_read_chunked(*old(self), *final(self), src@, old(dst).len() as int, final(dst)@, stop_on_chunk_boundary, r)'),
        ('C12.counts', 'r is Ok ==> r->Ok_0.0 <= src.len() && r->Ok_0.1 <= old(dst).len()'),
        ('C12.copy_in_order', 'r is Ok ==> is_subseq(final(dst)@.subrange(0, r->Ok_0.1 as int), src@.subrange(0, r->Ok_0.0 as int))'),
-       ('C07.boundary_stop_and_end', 'Self::post_read_chunked(*old(self), *final(self), src@, final(dst)@, stop_on_chunk_boundary, r)'),
+       ('C07.ended_consumes_nothing', 'old(self)->Chunked_0 is Ended ==> r == Ok::<(usize, usize), Error>((0usize, 0usize)) && *final(self) == *old(self)'),
    ],
    head='proof { axiom_slice_len(src); axiom_slice_len(dst); } let ghost fself = *final(self);',
    attrs=['verifier::loop_isolation(false)', 'verifier::allow_complex_invariants'],
@@ -658,53 +716,39 @@ FN('read_chunked', props=['C07', 'C12', 'C01'], ret='r',
         let ghost s0 = *dechunker;
         let ghost mut p_in: usize = 0;
         let ghost mut p_out: usize = 0;
-        let ghost mut p_state: Dechunker = *dechunker;
         let ghost mut p_dst: Seq<u8> = dst@;
-        let ghost mut rounds: nat = 0;
+        proof {
+            assert(src@.subrange(0, src.len() as int) =~= src@);
+            match spec_read(s0, src@, dst.len() as int, stop_on_chunk_boundary) { Some(q) => { assert(dst@.subrange(0, 0) + q.out =~= q.out); } None => {} }
+            lemma_read_basic(s0, src@, dst.len() as int, stop_on_chunk_boundary);
+        }
 ''',
               'invariant': [
                   ('aux.read_chunked.loop.bounds', 'input_used <= src.len() && output_used <= dst.len() && dst.len() == old(dst).len() && src.len() <= usize::MAX && dst.len() <= usize::MAX'),
                   ('aux.read_chunked.loop.state', 'dechunker_wf(*dechunker) && fself == BodyReader::Chunked(*final(dechunker))'),
-                  ('aux.read_chunked.loop.subseq', 'is_subseq(dst@.subrange(0, output_used as int), src@.subrange(0, input_used as int))'),
-                  ('aux.read_chunked.loop.ended', 's0 is Ended ==> *dechunker is Ended && input_used == 0 && output_used == 0'),
-                  ('aux.read_chunked.loop.segment', 'stop_on_chunk_boundary ==> one_segment(src@, dst@, input_used as int, output_used as int, s0, *dechunker)'),
               ],
               'invariant_except_break': [
-                  ('aux.read_chunked.loop.open', 'stop_on_chunk_boundary && output_used > 0 ==> *dechunker is Chunk || *dechunker is CrLf'),
-                  ('aux.read_chunked.loop.first', 'rounds == 0 ==> input_used == 0 && output_used == 0 && *dechunker == s0'),
-                  ('aux.read_chunked.loop.progress', 'rounds > 0 ==> input_used > 0'),
-                  ('aux.read_chunked.loop.open_chunk_has_data', 'stop_on_chunk_boundary && s0 is Chunk && rounds > 0 ==> output_used > 0'),
+                  ('aux.read_chunked.loop.interpreter', '''match spec_read(*dechunker, src@.subrange(input_used as int, src.len() as int), dst.len() - output_used, stop_on_chunk_boundary) {
+                        None => spec_read(s0, src@, dst.len() as int, stop_on_chunk_boundary) is None,
+                        Some(q) => spec_read(s0, src@, dst.len() as int, stop_on_chunk_boundary) == Some(ParseOut { state: q.state, i: input_used + q.i, out: dst@.subrange(0, output_used as int) + q.out }) }'''),
               ],
+              'ensures': [('aux.read_chunked.loop.exit_interpreter', 'spec_read(s0, src@, dst.len() as int, stop_on_chunk_boundary) == Some(ParseOut { state: *dechunker, i: input_used as int, out: dst@.subrange(0, output_used as int) })')],
               'decreases': 'src.len() - input_used',
               'body_head': '''
-            proof { p_in = input_used; p_out = output_used; p_state = *dechunker; p_dst = dst@; }
+            proof { p_in = input_used; p_out = output_used; p_dst = dst@;
+                    lemma_read_unfold(*dechunker, src@.subrange(input_used as int, src.len() as int), dst.len() - output_used, stop_on_chunk_boundary); }
 ''',
               }},
    after=[('output_used += o;', '''
             proof {
-                rounds = rounds + 1;
-                let a0 = p_dst.subrange(0, p_out as int);
-                let b0 = src@.subrange(0, p_in as int);
-                // this round's piece, in the coordinates of the whole call
-                let w_src = src@.subrange(p_in as int, src.len() as int);
-                let w_dst = dst@.subrange(p_out as int, dst.len() as int);
-                assert(dst@.subrange(0, p_out as int) =~= a0);
-                assert(w_dst.subrange(0, o as int) =~= dst@.subrange(p_out as int, p_out + o));
-                assert(w_src.subrange(0, i as int) =~= src@.subrange(p_in as int, p_in + i));
-                lemma_subseq_concat(a0, b0, w_dst.subrange(0, o as int), w_src.subrange(0, i as int));
-                assert(dst@.subrange(0, output_used as int) =~= a0 + w_dst.subrange(0, o as int));
-                assert(src@.subrange(0, input_used as int) =~= b0 + w_src.subrange(0, i as int));
-                if stop_on_chunk_boundary {
-                    let a = crate::chunk::seg_start(i as int, o as int, *dechunker);
-                    assert(w_src.subrange(a, a + o) =~= src@.subrange(p_in + a, p_in + a + o));
-                    let at = crate::chunk::seg_start(input_used as int, output_used as int, *dechunker);
-                    let ap = crate::chunk::seg_start(p_in as int, p_out as int, p_state);
-                    if p_out > 0 && o > 0 {
-                        // an open chunk continues: the new piece starts at the window's first byte
-                        assert(a == 0 && ap + p_out == p_in);
-                        assert(src@.subrange(ap, ap + p_out) + src@.subrange(p_in as int, p_in + o) =~= src@.subrange(at, at + output_used));
-                    }
-                    assert(src@.subrange(at, at + output_used) =~= dst@.subrange(0, output_used as int));
+                let win0 = src@.subrange(p_in as int, src.len() as int);
+                assert(win0.subrange(i as int, win0.len() as int) =~= src@.subrange(input_used as int, src.len() as int));
+                assert(dst@.subrange(p_out as int, dst.len() as int).subrange(0, o as int) =~= dst@.subrange(p_out as int, output_used as int));
+                assert(dst@.subrange(0, p_out as int) =~= p_dst.subrange(0, p_out as int));
+                assert(dst@.subrange(0, output_used as int) =~= p_dst.subrange(0, p_out as int) + dst@.subrange(p_out as int, output_used as int));
+                match spec_read(*dechunker, src@.subrange(input_used as int, src.len() as int), dst.len() - output_used, stop_on_chunk_boundary) {
+                    Some(q) => { let a = p_dst.subrange(0, p_out as int); let b = dst@.subrange(p_out as int, output_used as int); assert((a + b) + q.out =~= a + (b + q.out)); }
+                    None => {}
                 }
             }
 ''')],
@@ -717,33 +761,4 @@ FN('is_on_chunk_boundary', props=['C07'], ret='r',
    ensures=[('aux.BodyReader.is_on_chunk_boundary', 'r == (*self is Chunked && self->Chunked_0 is Size)')])
 END()
 
-PROOF('lemma_subseq_concat', ['C12', 'C07'], '''
-pub proof fn lemma_subseq_refl(a: Seq<u8>)
-    ensures is_subseq(a, a)
-    decreases a.len()
-{
-    if a.len() > 0 { lemma_subseq_refl(a.drop_last()); }
-}
-pub proof fn lemma_subseq_concat(a: Seq<u8>, b: Seq<u8>, x: Seq<u8>, y: Seq<u8>)
-    requires is_subseq(a, b), is_subseq(x, y)
-    ensures is_subseq(a + x, b + y)
-    decreases y.len()
-{
-    if x.len() == 0 {
-        assert(a + x =~= a);
-        lemma_subseq_extend_b(a, b, y);
-    } else if y.len() == 0 {
-    } else {
-        assert((b + y).drop_last() =~= b + y.drop_last());
-        if x.last() == y.last() && is_subseq(x.drop_last(), y.drop_last()) {
-            lemma_subseq_concat(a, b, x.drop_last(), y.drop_last());
-            assert((a + x).drop_last() =~= a + x.drop_last());
-            assert((a + x).last() == (b + y).last());
-        } else {
-            lemma_subseq_concat(a, b, x, y.drop_last());
-            let ax = a + x; let by = b + y;
-            if ax.last() == by.last() && is_subseq(ax.drop_last(), by.drop_last()) {} else {}
-        }
-    }
-}
-''')
+
